@@ -1319,6 +1319,14 @@ package spine
 //@   ensures[C20] atomic: acquisitions(muxUseCaseData) == 1 && at(SetData, held(muxUseCaseData)) && at(LocalFeatureDataCopyOfType, held(muxUseCaseData)) && locksUnchanged()
 //@   modifies held, wm, world, @SETLOG, @PUBLISH, outmisc, cells(model.NodeManagementUseCaseDataType), cells(model.UseCaseInformationDataType), cells(model.UseCaseSupportType), cells(model.FeatureAddressType)
 
+//@ func (*EntityLocal).SetUseCaseAvailability
+//@   requires r != nil && r.Entity != nil && r.Entity.address != nil && r.device != nil && len(useCaseName) > 0
+//@   ensures[C20] sets-for-own-address: res2(LocalFeatureDataCopyOfType, 0, 1) == nil ==> mineAddr(arg2(SetAvailability, 0, 1)) && arg2(SetAvailability, 0, 2) == actor && arg2(SetAvailability, 0, 3) == useCaseName && arg2(SetAvailability, 0, 4) == available
+//@   ensures[C20] stored-once: res2(LocalFeatureDataCopyOfType, 0, 1) == nil ==> setn == old(setn) + 1 && setobj[old(setn)] == old(r.device.NodeManagement()) && setfct[old(setn)] == UCF && setdata[old(setn)] == iface(arg2(SetAvailability, 0, 0))
+//@   ensures[C20] nothing-declared-noop: res2(LocalFeatureDataCopyOfType, 0, 1) != nil ==> setn == old(setn)
+//@   ensures[C20] atomic: acquisitions(muxUseCaseData) == 1 && locksUnchanged() && (res2(LocalFeatureDataCopyOfType, 0, 1) == nil ==> at(SetData, held(muxUseCaseData)))
+//@   modifies held, wm, world, @SETLOG, @PUBLISH, outmisc, cells(model.NodeManagementUseCaseDataType), cells(model.UseCaseInformationDataType), cells(model.UseCaseSupportType), cells(model.FeatureAddressType), new(bool)
+
 //@ func (*EntityLocal).RemoveUseCaseSupport
 //@   requires r != nil && r.Entity != nil && r.Entity.address != nil && r.device != nil
 //@   ensures[C20] removes-for-own-address: res2(LocalFeatureDataCopyOfType, 0, 1) == nil ==> mineAddr(arg2(RemoveUseCaseSupport, 0, 1)) && arg2(RemoveUseCaseSupport, 0, 2) == actor && arg2(RemoveUseCaseSupport, 0, 3) == useCaseName
